@@ -215,6 +215,7 @@ def loadedRun(entry, setname, extra, tiers, name):
 
 P["C02"]["runs"] += [loadedRun("VerifMemoStepLoaded", "memo", [0], T, "memo-step-loaded-filled"), loadedRun("VerifTierBSetLoaded", "memo", [3, 0], T, "tierB-loaded-memo-k3")]
 P["C02"]["bounds"] += "; thorough: the same on knowledge bases loaded back from their GRB image"
+P["C12"]["runs"] += [dict(tierC("VerifTierCOverwrite", "two", [], QT, ["tierC:overwrite-case"], "overwrite=false: no entry / an entry with rules / an entry without rules already in the library"))]
 P["C12"]["runs"] += [{"name": "tierc-equivalence-memo", "pkgdir": "zztier", "harness": TIERC_H, "entry": "VerifTierCEquiv", "args": ["memo"], "tiers": QT,
                       "templates": tfiles(TB_SETS["memo"]), "require_reach": ["tierC:equiv-loaded"], "compare_events": False,
                       "bounds": "every rule of the %d templates of set 'memo':" % len(TB_SETS["memo"]) + " instance of the stored vs. of the loaded vs. of the twice-loaded knowledge base on copies of the same symbolic facts (candidate flag and all resulting facts equal)"},
@@ -230,7 +231,7 @@ P["C12"]["assumptions"] = TIERC_ASSUME + TIERB_ASSUME
 P["C10"]["runs"] += [tierB("control", 3, 0, QT, require_reach=["tierB:self-retract-fired", "tierB:complete-fired"]), tierB("controlp", 2, 1, T, require_reach=["tierB:self-retract-fired", "tierB:complete-fired"])]
 P["C10"]["assumptions"] = TIERA_ASSUME + TIERB_ASSUME
 P["C10"]["bounds"] += "; Tier B: Retract (self / other / unknown) and Complete in the middle of real action lists (template b_retract) reached through FunctionCall -> GoValueNode.CallFunction -> reflect MethodByName/Call"
-P["C14"]["runs"] += [tierB("control", 3, 0, QT), tierB("controlp", 2, 1, T),
+P["C14"]["runs"] += [tierB("control", 3, 0, QT), tierB("controlp", 2, 1, T), tierB("nilp", 3, 4, QT, require_reach=["tierB:execute-returned"]),
                      tierB("failing", 2, 8, QT, require_reach=["tierB:execute-returned", "tierB:flag-set-and-a-condition-fails"])]
 P["C14"]["assumptions"] = TIERA_ASSUME + TIERB_ASSUME
 P["C14"]["bounds"] += "; Tier B: real failures chosen by the solver through the facts (index out of range, integer division by zero, panicking user method, nil pointer, kind mismatch, missing fact, missing map key, a failing parenthesised sub-expression, Complete() before a failing action; a failing sub-expression shared with a healthy rule); the same failing templates with ReturnErrOnFailedRuleEvaluation set (error names a rule whose memo-free evaluation fails, nothing fires)"
@@ -272,7 +273,26 @@ def reuseSameDC(setname, k, tiers):
     return r
 
 
-P["C08"]["runs"] += [reuseB("reuseq", 2, QT), reuseB("reuse", 2, T), reuseSameDC("reuseq", 2, QT), reuseSameDC("reuse", 2, T)]
+def reuseFetchOnly(setname, k, tiers):
+    r = reuseB(setname, k, tiers)
+    r.update(name="tierB-execute-after-fetch-only-%s-k%d" % (setname, k), args=[setname, k, 2], require_reach=["tierB:second-call", "tierB:execute-after-fetch-only-fired"],
+             bounds="an instance of each template of set '%s' is first used ONLY through FetchMatchingRules (facts A), then Execute runs on a new data context with independent symbolic facts B; <= %d firings" % (setname, k))
+    return r
+
+
+def reuseOther(setname, k, tiers):
+    r = reuseB(setname, k, tiers)
+    r.update(name="tierB-same-dc-other-instance-%s-k%d" % (setname, k), entry="VerifTierBReuseOtherInstance", args=[setname, k],
+             bounds="the SAME data context (facts changed by the host in between) is passed first to one instance and then to ANOTHER instance of each template of set '%s' (Forget / Changed in the second run must act on the second instance); <= %d firings per call" % (setname, k))
+    return r
+
+
+P["C08"]["runs"] += [reuseB("reuseq", 2, QT), reuseB("reuse", 2, T), reuseSameDC("reuseq", 2, QT), reuseSameDC("reuse", 2, T), reuseFetchOnly("reuseq", 2, QT), reuseOther("reusef", 2, QT)]
+P["C02"]["runs"] += [reuseOther("reusef", 2, QT)]
+P["C03"]["runs"] += [tierB("ctl1", 3, 0, QT, require_reach=["tierB:execute-returned", "tierB:complete-fired"])]
+P["C16"]["runs"] += [{"name": "tierB-removal-during-the-run", "pkgdir": "zztier", "harness": TIERC_H, "entry": "VerifTierBRemoval", "args": ["removal", 3], "tiers": QT,
+                      "templates": tfiles(TB_SETS["removal"]), "replay_attempts": 150, "require_reach": ["tierB:removal-run-returned", "tierB:rule-removed-during-the-run"], "compare_events": False,
+                      "bounds": "templates b_basic, b_retract, two: during Execute a listener removes one (chosen) rule of the instance at one (chosen) firing; symbolic facts, <= 3 firings"}]
 P["C01"]["runs"] += [reuseSameDC("reuseq", 2, QT)]
 P["C01"]["bounds"] += "; the same data context passed to two Execute calls with host-side changes in between (nothing remembered from the first call may be served in the second)"
 P["C08"]["assumptions"] = TIERA_ASSUME + TIERB_ASSUME
@@ -306,7 +326,9 @@ P["C18"] = {
         "JSON text -> tree is encoding/json (native, concrete); the translator, the GRL parser and the builder run natively on each generated rule; evaluation of the built rule runs from SSA on symbolic facts"],
     "bounds": "every ordered pair (outer operator, nested operator) of the 15 operators with the nested object as left and as right operand over every well-typed int/bool/float operand triple (428 cases), n-ary forms, plain-string / obj-const-wrapped notations, constants of each kind, depth 3, both 'not' forms; 24 malformed / well-formed rule shapes (unknown operator, wrong arity, missing name/when/then, wrong operand types); string constants: the emitted literal of every 1-byte (quick) / 2-byte (thorough) string decodes to the same bytes",
     "outside": "trees outside the family; number formatting for all floats; string constants longer than 2 bytes; JSON text that is not well-formed JSON (encoding/json's business)",
-    "runs": [{"name": "c18-family", "pkgdir": "zztier", "harness": TIERC_H, "entry": "VerifC18All", "tiers": QT, "templates": ["c18_%d.recipe.json" % t for t in range(12)],
+    "runs": [{"name": "c18-set", "pkgdir": "zztier", "harness": TIERC_H, "entry": "VerifC18Set", "tiers": QT, "templates": ["c18_set.recipe.json"], "require_reach": ["c18:set"], "compare_events": False,
+              "bounds": "a JSON rule SET of three rules (the second omitting desc and salience) and four sets with a malformed non-first element, through JSONResource + builder natively; names, descriptions, saliences and rejections checked on the imported libraries"},
+             {"name": "c18-family", "pkgdir": "zztier", "harness": TIERC_H, "entry": "VerifC18All", "tiers": QT, "templates": ["c18_%d.recipe.json" % t for t in range(12)],
               "require_reach": ["c18:case"], "witnesses": 12, "bounds": "the whole generated family (442 JSON rules)"},
              {"name": "c18-malformed", "pkgdir": "pkg", "harness": [["pkg", "harness/pkg"]], "entry": "VerifC18Malformed", "tiers": QT, "require_reach": ["c18:malformed-case"],
               "bounds": "24 rule shapes through pkg.ParseRule from SSA"},
@@ -316,11 +338,11 @@ P["C18"] = {
               "init": ["strconv", "unicode/utf8"], "require_reach": ["c18:quoted"], "thorough": {"max_values": 300}, "bounds": "every 2-byte string constant"}]}
 
 
-HIST = ["h_remove", "h_reuse", "h_reuse_twice_lib", "h_reuse_twice_kb", "h_dup_later_resource", "h_dup_same_resource", "h_two_kbs", "h_dup_identical"]
+HIST = ["h_remove", "h_reuse", "h_reuse_twice_lib", "h_reuse_twice_kb", "h_dup_later_resource", "h_dup_same_resource", "h_two_kbs", "h_dup_identical", "h_remove_among_kbs"]
 for sl in (0, 1):
     P["C16"]["runs"].append({"name": "c16-histories" + ("-stored" if sl else ""), "pkgdir": "zztier", "harness": TIERC_H, "entry": "VerifC16History", "args": [sl], "tiers": QT,
                              "templates": [h + ".recipe.json" for h in HIST], "require_reach": ["c16:history"] + (["c16:stored-and-loaded"] if sl else []), "replay_attempts": 60, "compare_events": False,
-                             "bounds": "8 build / remove / re-build histories run natively by the real builder and library (remove, reuse of the name, second removal at library and knowledge-base level, duplicate in a later and in the same resource, two knowledge bases in one library)" + (", then store -> load" if sl else "") + "; suffix on symbolic facts"})
+                             "bounds": "9 build / remove / re-build histories run natively by the real builder and library (remove, reuse of the name, second removal at library and knowledge-base level, duplicate in a later and in the same resource, two knowledge bases in one library, removal from one of three knowledge bases that share a name or a version)" + (", then store -> load" if sl else "") + "; suffix on symbolic facts"})
 P["C16"]["assumptions"] = TIERA_ASSUME + TIERB_ASSUME
 P["C16"]["bounds"] += "; Tier B: 7 histories (native prefix) continued symbolically: instantiate, Execute and FetchMatchingRules on symbolic facts (removed rules never evaluated / fired / matched, the reused name behaves exactly as its rule built alone), again after store -> load"
 P["C16"]["outside"] = "histories outside the 7 recipes; symbolic rule names (the Tier K of DESIGN §8 C16 over SMT strings is not built)"
@@ -332,6 +354,9 @@ def fetchTwice(setname, tiers):
 
 
 P["C11"]["runs"].append(fetchTwice("fetch", QT))
+P["C11"]["runs"].append(histA(2, 1, 2, fRetract, QT))
+P["C11"]["bounds"] += "; Tier A histories of two calls (Execute with Retract, then FetchMatchingRules) on one instance"
+P["C11"]["outside"] = "rule sets outside the families"
 P["C11"]["assumptions"] = TIERA_ASSUME + TIERB_ASSUME
 P["C11"]["bounds"] += "; Tier B: real conditions of 6 templates on symbolic facts, FetchMatchingRules called twice on one instance and data context with host-side fact changes in between (result = exactly the rules whose condition holds now)"
 P["C08"]["runs"].append(fetchTwice("fetch", T))
@@ -402,6 +427,8 @@ for pid in ("C01", "C02"):
     P[pid]["bounds"] += GEN_NOTE
 P["C02"]["runs"] += [memoStep("gen", 1, T), dict(tierB("gen", 3, 0, T), thorough={"wall": "45m"})]
 P["C04"]["runs"].append(tierB("genq", 2, 0, T))
+P["C04"]["runs"].append(tierB("actfail", 2, 0, QT, require_reach=["tierB:execute-returned", "tierB:failing-action-fired"]))
+P["C04"]["bounds"] += "; a failing action in the middle of an action list (nothing is written after it); pointer-to-number fields keep their cell"
 P["C04"]["bounds"] = P["C04"]["bounds"].replace("22 assignment cases", "28 assignment cases (6 on JSON members)")
 P["C04"]["outside"] = "values outside the destination range; map entries of another kind than the element type (the property excludes them); rule sets outside the family; JSON facts are decoded trees with symbolic leaves (json.Unmarshal itself is native)"
 P["C03"]["runs"].append(dict(tierC("VerifTierCRoundTrip", "two", [1], QT, ["tierC:stored", "tierC:loaded"], "saliences (symbolic, int32) survive store -> load -> store -> load"),
